@@ -14,6 +14,7 @@ trace with tolerance 0; TLC accepts the trace iff all runs agree on every key.""
 from __future__ import annotations
 
 import copy
+import dataclasses
 import hashlib
 import json
 import os
@@ -85,6 +86,11 @@ HISTORY_FAMILIES = {
         variants=[[], [dict(kind="sim", on="device", over=_PSIN)],
                   [dict(kind="mesh", dev="barhole"), dict(kind="mesh", dev="cross")],
                   [dict(kind="sim", on="copy", over=_PSIN, then="solution.device")]]),
+    # ONE SolverOptions object with a history (validated / used for a fixed-step solve / read back from the file of a fixed-step
+    # run), then switched to adaptive and given exactly the values a fresh object gets from the same literals
+    "history/options object re-used": dict(
+        dev="bar", current=3.0, field=0.4, adaptive=True, dt=2.0 ** -8, dt_max=0.05, solve_time=0.4, k=5, guard_dt_growth=True,
+        variants=[[], [dict(kind="options", how="reuse")], [dict(kind="options", how="reloaded")], [dict(kind="options", how="validate")]]),
     # a terminal polygon edited IN PLACE (points assigned, scale(inplace=True)) without re-meshing: the process that has already
     # solved on the device before the edit must give what a process gives that edits first and solves once
     "history/terminal edited in place": dict(
@@ -290,7 +296,24 @@ def child(args):
             kw["terminal_currents"] = base
     out = os.path.join(work, args["outname"])
     os.makedirs(os.path.dirname(out), exist_ok=True)
-    sol = tdgl.solve(dev, twin.options(tdgl, a, out), **kw)
+    opts = twin.options(tdgl, a, out)                       # fresh options from the literals
+    for n, st in enumerate(prework):                      # ... or an options OBJECT with a history, set to the same values
+        if st["kind"] == "options":
+            fixed = dict(a, adaptive=False, solve_time=3 * a["dt"] - a["dt"] / 2)
+            old = twin.options(tdgl, fixed, os.path.join(work, f"fixed{n}.h5"))
+            if st["how"] == "validate":
+                old.validate()
+            else:
+                first = tdgl.solve(dev, old, **kw)          # a fixed-step solve with this object
+                if st["how"] == "reloaded":
+                    old = tdgl.Solution.from_hdf5(first.path).options
+            for f in dataclasses.fields(opts):             # every field the fresh options would have, assigned on the old object
+                if f.name not in ("dt_max",):              # (dt_max was given as the same literal at construction and is not touched)
+                    setattr(old, f.name, getattr(opts, f.name))
+            if getattr(old, "dt_max") != getattr(opts, "dt_max") and st["how"] == "reloaded":
+                pass                                       # what the file returned is what is used: it is part of the observation
+            opts = old
+    sol = tdgl.solve(dev, opts, **kw)
     obs.update(_file_obs(sol.path))
     # the loaded solution's view of the last frame and of the per-step records
     obs["solution/times"] = _h(np.asarray(sol.times))
@@ -298,6 +321,7 @@ def child(args):
     obs["solution/psi"] = _h(np.asarray(sol.tdgl_data.psi))
     obs["solution/current_density"] = _h(np.asarray(sol.current_density.magnitude))
     return {"obs": obs, "draws": draws, "threads": numba.config.NUMBA_NUM_THREADS, "hashseed": os.environ.get("PYTHONHASHSEED"),
+            "max_dt": float(np.max(np.asarray(sol.dynamics.dt))),
             "nframes": len([k for k in obs if k.endswith("/psi") and k.startswith("file/data/")])}
 
 
@@ -528,8 +552,11 @@ def _dynamic_part(ctx, orders, deferred, started):
             rid = f"T{j[2]}/seed{j[3]}/{j[1]['outname'].split('/')[0]}/poison{j[1]['poison']}/draws:{j[1].get('rng_seed')}"
             if "prework" in j[1]:
                 rid += "/before:" + ("nothing" if not j[1]["prework"] else "+".join(
-                    (f"mesh {st['dev']}" if st["kind"] == "mesh" else f"sim on {st.get('on')} psi={st['over'].get('terminal_psi')}"
+                    (f"mesh {st['dev']}" if st["kind"] == "mesh" else f"options object {st['how']}" if st["kind"] == "options"
+                     else f"sim on {st.get('on')} psi={st['over'].get('terminal_psi')}"
                      + (" then its Solution.device" if st.get("then") else "")) for st in j[1]["prework"]))
+                if fams[label].get("guard_dt_growth") and not j[1]["prework"] and not res.get("max_dt", 0) > 1.5 * fams[label]["dt"]:
+                    deferred.append(f"{label}: the adaptive run never exceeds dt_init in the fresh child (max dt {res.get('max_dt')}): vacuous")
             for key in sorted(res["obs"]):
                 ev.append({"run": rid, "key": key, "q": [intern(res["obs"][key])]})
             for sub, o in res.get("extra_runs", {}).items():      # several observers inside one process (e.g. two continuations of one seed)
